@@ -312,6 +312,9 @@ func C07(rep *ev.Reporter, tier string) {
 				mu.Unlock()
 				return
 			}
+			if !hx.OrderLive() && (aloneA.err != "" || aloneB.err != "") {
+				continue // a failing action ends the run: whether the sibling fired before it depends on the (then uncontrolled) order
+			}
 			for _, v := range variants {
 				caseID := fmt.Sprintf("%s#w%d#%s", id, wi, v.name)
 				if rep.ReplayFilter != "" && rep.ReplayFilter != caseID {
